@@ -180,3 +180,14 @@ Theorem C19_unterminated_last_entry_archived : forall fl w keep w' res n cls pre
             a_entries f = replay_entries (file_lines cls pre) ++ [entry_of_json j].
 Proof. exact unterminated_last_entry_archived. Qed.
 Print Assumptions C19_unterminated_last_entry_archived.
+
+(** The archive pass of a conservative cleanup attempts EVERY eligible file: the Rust text of
+    [archive_logs_up_to] has the shape "one [archive_log] per directory entry the scan accepts, results
+    returned uncut" ([walarch_archives_every_eligible], regenerated from the source: a per-pass cap,
+    [take]/[truncate] or an early exit turns it to [false]), and the model returns one result per entry the
+    deletion pass can hit ([scan_hits]) - so "no failure among the results" covers every file deleted. *)
+Theorem C19_results_cover_every_eligible : forall fl w keep w' res,
+  walarch_archives_every_eligible = true /\
+  (cleanup_up_to true fl w keep = (w', res) -> length res = length (scan_hits keep (cleaner_dir w))).
+Proof. exact results_cover_every_eligible. Qed.
+Print Assumptions C19_results_cover_every_eligible.
